@@ -15,12 +15,12 @@ LEAN_MODULES = ["Barril.Props.C09"]
 DRIVERS = ["drv_ops"]
 DRIVER_EXE = "drv_ops"
 RULE = ("x in {Scalar, Array over list / tuple / ndarray, lengths 0..5} with a simple, derived (normal, twin, mixed-unit, offset units, "
-        "zero-exponent) or empty quantity of the default POSC database; k in {int, float, bool, numpy.float64/float32/"
-        "int64/int32} and 1-D ndarrays (float64/float32/int64; plain, numpy.ma masked arrays with nothing / some elements masked, "
+        "zero-exponent) or empty quantity of the default POSC database; k in {int, float, bool, numpy.float64/float32/float16/"
+        "int64/int32/int16/int8/uint64/uint32/uint16/uint8 (the small kinds meet float values only)} and 1-D ndarrays (float64/float32/int64; plain, numpy.ma masked arrays with nothing / some elements masked, "
         "ndarray subclass views with __array_priority__ 1 / 50; same length, length 1, other length, empty); all ten forms "
         "k*x x*k x/k x//k x+k k+x x-k k-x k/x k//x; zero divisors in float slots; a malformed stream (str, None, list, "
         "Scalar with ndarray, Scalar with Array); SEQUENCES of 2-3 database-computed operations in one process on operands of "
-        "one quantity type and unit but different categories, every step compared with its full quantity.  distinct = distinct (form, operands); non-trivial = the real code "
+        "one quantity type and unit but different categories, every step compared with its full quantity; decimal-looking pairs (1.0, 0.1) ... for x // k and k // x.  distinct = distinct (form, operands); non-trivial = the real code "
         "returned a barril object")
 EXHAUSTIVE = {"quick": False, "thorough": False}
 ASSUMPTIONS = [
